@@ -82,11 +82,21 @@ def run_one(job):
         res["before"], res["after"] = before, after
         env = dict(os.environ, PYTHONPATH=str(d / "src"), PYTHONDONTWRITEBYTECODE="1")
         t0 = time.time()
-        r = subprocess.run(
-            ["/venv/bin/python", "-m", "pytest", "tests", "-q", "-x", "-p", "no:cacheprovider", "-n", "4", "--deselect", FLAKY,
-             "--timeout=120"],
-            cwd=REPO, env=env, capture_output=True, text=True, timeout=1200,
-        )
+        try:
+            r = subprocess.run(
+                ["/venv/bin/python", "-m", "pytest", "tests", "-q", "-x", "-p", "no:cacheprovider", "-n", "4", "--deselect", FLAKY,
+                 "--timeout=40"],
+                cwd=REPO, env=env, capture_output=True, text=True, timeout=150,
+            )
+        except subprocess.TimeoutExpired:
+            res["tests_s"] = round(time.time() - t0, 1)
+            res["tests_pass"] = False
+            res["killed_by"] = "test-suite hangs (timeout)"
+            # xdist workers of the hung run: they carry the scratch path in their environment only, so find them by cwd/ppid
+            subprocess.run("ps -eo pid,args | grep 'pytest tests -q -x' | grep -v grep | awk '{print $1}' | "
+                           "while read p; do if grep -q %s /proc/$p/environ 2>/dev/null; then kill -9 $p; fi; done" % d,
+                           shell=True, capture_output=True)
+            return res
         res["tests_s"] = round(time.time() - t0, 1)
         res["tests_pass"] = r.returncode == 0
         if not res["tests_pass"]:
